@@ -346,6 +346,78 @@ def insertStrs (x : String) : List String → List String
 /-- `sorted(list of str)` -/
 def sortStrs (l : List String) : List String := l.foldr insertStrs []
 
+/-- `Process.info()`: the psutil figures of the worker (`"No such process"` once it is gone), then of each of its
+    children; a worker or child that vanishes in between is an uncaught NoSuchProcess (`false`) -/
+def procInfo (pid : Nat) : M Bool := do
+  let st ← kStateOf pid
+  if st = .gone then pure true else
+  let cs ← kChildren pid false
+  match cs with
+  | none => pure false
+  | some cs =>
+    let mut ok := true
+    for c in cs do
+      if ok then
+        let st ← kStateOf c
+        if st = .gone then ok := false
+    pure ok
+
+/-- `Watcher.info()`: one entry per listed process, in the order of the dict -/
+def watcherInfo (u : Nat) : M Bool := do
+  let w ← getW u
+  let mut ok := true
+  for pid in w.pids do
+    if ok then
+      let r ← procInfo pid
+      if !r then ok := false
+  pure ok
+
+/-- the reply of `stats` once the figures have been collected: NoSuchProcess (errno 5) when a process vanished meanwhile -/
+def statsTail (ok : Bool) (body : String) : R ExecRes :=
+  if ok then .ok (.value body) else .error .noSuchProcess
+
+/-- `watcher.process_info(pid)`: `self.processes[int(pid)]`, KeyError is answered as a MessageError -/
+def statsProc (w : Watcher) (p : Int) : M (R ExecRes) :=
+  if p < 0 || !w.pids.contains p.toNat then pure (.error .message) else do
+    let ok ← procInfo p.toNat
+    pure (statsTail ok ("procinfo=" ++ toString p))
+
+def statsWatcher (u : Nat) (name : JVal) : M (R ExecRes) := do
+  let w ← getW u
+  let ok ← watcherInfo u
+  let nm := match name with | .str n => n | _ => ""
+  pure (statsTail ok ("stats=" ++ encName nm ++ ":" ++ showList w.pids))
+
+/-- `infos[watcher.name] = watcher.info()` over the arbiter's list: a dict keyed by the watcher's name (a later watcher
+    of the same name takes the earlier one's place) -/
+def statsAllLoop : List Watcher → List (String × String) → M (Bool × List (String × String))
+  | [], parts => pure (true, parts)
+  | w :: ws, parts => do
+    let r ← watcherInfo w.uid
+    if !r then pure (false, parts) else
+    statsAllLoop ws ((parts.map fun kv => if kv.1 = w.name then (kv.1, showList w.pids) else kv) ++
+                     (if parts.any (·.1 = w.name) then [] else [(w.name, showList w.pids)]))
+
+def statsAll : M (R ExecRes) := do
+  let ws ← registered
+  let r ← statsAllLoop ws []
+  pure (statsTail r.1 ("infos=" ++ ";".intercalate (r.2.map fun kv => encName kv.1 ++ ":" ++ kv.2)))
+
+/-- `stats` (commands/stats.py): per process of the named watcher, one process of it, or every watcher of the list -/
+def execStats (props : JVal) : M (R ExecRes) := do
+  match props.get? "name" with
+  | some name =>
+    let r ← getWatcherCmd name
+    match r with
+    | .error e => pure (.error e)
+    | .ok u =>
+      let w ← getW u
+      match props.get? "process" with
+      | some (.int p) => statsProc w p
+      | some _ => pure (.error (.other "unmodelled"))
+      | none => statsWatcher u name
+  | none => statsAll
+
 def execReadOnly (cmd : String) (props : JVal) : M (R ExecRes) := do
   match cmd with
   | "status" =>
@@ -387,6 +459,7 @@ def execReadOnly (cmd : String) (props : JVal) : M (R ExecRes) := do
     let a ← getA
     pure (.ok (.value ("numwatchers=" ++ toString a.watchers.length)))
   | "listen" => pure (.error .message)
+  | "stats" => execStats props
   | _ => pure (.ok .unmodelled)
 
 /-- `cmd.validate(props)` then `cmd.execute(arbiter, props)` -/
